@@ -56,7 +56,7 @@ SPEC int tw_inv(int maxlen) {
   int n;
   if (!list_links_ok(A_SENT) || !list_links_ok(F_SENT)) return 0;
   n = list_len(A_SENT);
-  if (n > maxlen || list_len(F_SENT) > 2) return 0;
+  if (n > maxlen || list_len(F_SENT) > TW_N + 1) return 0;   /* every element of the harness may end up on the free list */
   if (!active_sorted() || !in_window(S_weight)) return 0;
   return 1;
 }
